@@ -1041,3 +1041,7 @@ V("C06", "superpose-reference-copied-late", TRJ, """        ref_align_xyz = np.a
             order="c",
         ).reshape(1, -1, 3)
 """, "C06-R2")
+V("C07", "twin-angle-clamp-min-max", AKH, "            if (cosine < -1.0f) {\n                cosine = -1.0f;\n            }\n            if (cosine > 1.0f) {\n               cosine = 1.0f;\n            }", "            if (cosine > 1.0f) {\n               cosine = 1.0f;\n            } else if (cosine < -1.0f) {\n                cosine = -1.0f;\n            }", None)
+V("C07", "twin-dihedral-locals-renamed", DHKH, "            fvec4 c1 = cross(v2, v3);\n            fvec4 c2 = cross(v1, v2);\n            float p1 = dot3(v1, c1)*distances[3*j+1];\n            float p2 = dot3(c1, c2);\n            out[n_quartets*j + i] = atan2f(p1, p2);", "            fvec4 n23 = cross(v2, v3);\n            fvec4 n12 = cross(v1, v2);\n            float yv = distances[3*j+1]*dot3(n23, v1);\n            float xv = dot3(n12, n23);\n            out[n_quartets*j + i] = atan2f(yv, xv);", None)
+V("C07", "dihedral-cross-operands-swapped", DHKH, "            fvec4 c2 = cross(v1, v2);", "            fvec4 c2 = cross(v2, v1);", "C07-R3")
+V("C07", "twin-reference-dihedral-norm", DHPY, "    p1 *= (b2 * b2).sum(-1) ** 0.5", "    p1 = p1 * np.sqrt((b2 * b2).sum(-1))", None)
